@@ -257,8 +257,13 @@ def main(argv=None):
         "wall_s": round(time.time() - t0, 2),
         "violations": n_viol,
     }
-    os.makedirs(os.path.join(ROOT, "evidence"), exist_ok=True)
-    with open(os.path.join(ROOT, "evidence", f"{prop}.json"), "w") as f:
+    # the registered evidence file only ever describes complete runs against /repo itself: developer runs (a scratch tree via
+    # MC_REPO, --filter, --limit) write to .scratch/evidence_dev instead
+    ev_dir = os.path.join(ROOT, "evidence")
+    if os.environ.get("MC_REPO", "/repo") != "/repo" or a.filter or a.limit:
+        ev_dir = os.path.join(ROOT, ".scratch", "evidence_dev")
+    os.makedirs(ev_dir, exist_ok=True)
+    with open(os.path.join(ev_dir, f"{prop}.json"), "w") as f:
         f.write(dumps(ev, indent=1))
     print(
         f"[{prop}] states={states} transitions={transitions} traces={traces} nontrivial={nontrivial} "
